@@ -182,6 +182,24 @@ structure Laws {S D : Type} (ops : Ops S D) : Prop where
   sender considers the same -/
   same_clear : ∀ a b, ops.same a b = true → ops.apply a ops.clear = .ok b
 
+/-- The same laws, required only on the snapshots that satisfy `P` (the snapshots the sender
+actually builds) and on the deltas created between them.  This is what an executable snapshot
+layer over plain values can satisfy. -/
+structure LawsOn {S D : Type} (ops : Ops S D) (P : S → Prop) : Prop where
+  empty : P ops.empty
+  apply_create : ∀ a b d, P a → P b → ops.create a b = some d → ops.apply a d = .ok b
+  read_write : ∀ a b d bs, P a → P b → ops.create a b = some d → ops.write d = some bs →
+    ops.read bs = .ok d
+  write_nonempty : ∀ a b d bs, P a → P b → ops.create a b = some d → ops.write d = some bs → bs ≠ []
+  same_clear : ∀ a b, P a → P b → ops.same a b = true → ops.apply a ops.clear = .ok b
+
+theorem Laws.on {S D : Type} {ops : Ops S D} (l : Laws ops) : LawsOn ops (fun _ => True) where
+  empty := trivial
+  apply_create := fun a b d _ _ h => l.apply_create a b d h
+  read_write := fun _ _ d bs _ _ _ h => l.read_write d bs h
+  write_nonempty := fun _ _ d bs _ _ _ h => l.write_nonempty d bs h
+  same_clear := fun a b _ _ h => l.same_clear a b h
+
 /-- `sent` maps each tick to one snapshot -/
 def Functional {S : Type} (sent : List (Int × S)) : Prop :=
   ∀ p, p ∈ sent → ∀ q, q ∈ sent → p.1 = q.1 → p = q
